@@ -163,6 +163,12 @@ def peekTL (off : Nat) : RdM TL := do
   let (l, s) ← peekLen (off + 1)
   pure ⟨t, l, s⟩
 
+/-- `PeekTagLength(&reader, 0)` whose error only means "not present" (`versionExists`, `nextUpdateTimeExists`, …). -/
+def tryPeekTL : RdM (Option TL) := fun r =>
+  match peekTL 0 r with
+  | .ok t _ => .ok (some t) r
+  | _ => .ok none r
+
 def expectTag (want got : UInt8) : RdM Unit :=
   if want = got then pure () else fail .tag
 
@@ -311,66 +317,99 @@ def setHashing (b : Bool) : RdM Unit := fun r =>
 
 def getHashed : RdM Bytes := fun r => .ok r.hashed r
 
+def getHashFrom : RdM Nat := fun r => .ok r.hashFrom r
+
+def lookupHashM (oid : List Nat) : RdM HashAlg :=
+  match lookupHash oid with
+  | some h => pure h
+  | none => fail .alg
+
+/-- `versionExists` / `parseVersion`: an INTEGER of length exactly 1 at this position is the version. -/
+def readVersion : RdM Nat := do
+  let vtl ← tryPeekTL
+  let hasVersion := match vtl with | some t => t.tag == 2 && t.len == 1 | none => false
+  if hasVersion then do
+    ignoreErr readTL
+    let b ← readU8
+    pure (versionOf b)
+  else pure 1
+
+/-- `nextUpdateTimeExists` + `ReadUtcTime`. -/
+def readNextUpdate (O : Oracle) : RdM (Option Bytes) := do
+  let ntl ← tryPeekTL
+  let hasNext := match ntl with | some t => t.tag == 23 | none => false
+  if hasNext then do
+    let v ← readUtcTime O
+    pure (some v)
+  else pure none
+
+/-- `revokedCertificateListExists` (+ position guard) and `parseRevokedCertificateList`. -/
+def readEntryList (O : Oracle) (tbsEnd : Nat) : RdM Unit := do
+  let p1 ← getPos
+  let ltl ← tryPeekTL
+  let hasList := (!listGuardedByTbsEnd || decide (p1 < tbsEnd)) && (match ltl with | some t => t.tag == 0x30 | none => false)
+  if hasList then do
+    let l ← readTL
+    expectTag 0x30 l.tag
+    let listEnd ← endPosition l.len
+    entryLoop O listEnd
+  else pure ()
+
+/-- `parseCRlNumberIfExists`. -/
+def readCrlNumber (es : List Ext) : RdM (Option Nat) :=
+  match findExt oidCrlNumber es with
+  | some e => do
+    let n ← onBytes e.value readBigInt
+    pure (some n)
+  | none => pure none
+
+/-- `extensionsExists` (+ position guard), `parseExtensions`, CRL number. -/
+def readExtensions (O : Oracle) (tbsEnd version : Nat) : RdM (Option (List Ext) × Option Nat) := do
+  let p2 ← getPos
+  let etl ← tryPeekTL
+  let hasExts := (!extsGuardedByTbsEnd || decide (p2 < tbsEnd)) &&
+    (match etl with | some t => decide (version > 1) && isCtx0 t.tag | none => false)
+  if hasExts then do
+    ignoreErr readTL
+    let f ← readStructFrame
+    logQuery .exts f.length
+    match O.exts f with
+    | none => fail .decode
+    | some es => do
+      let n ← readCrlNumber es
+      pure (some es, n)
+  else pure (none, none)
+
+def checkGate : Option (List Ext) → RdM Unit
+  | some es => if criticalGate es then pure () else fail .gate
+  | none => pure ()
+
 /-- Second pass: `ReadCRL` after the pre-scan. -/
 def readBody (O : Oracle) (oid : List Nat) : RdM ReadResult := do
   let outer ← readTL
   expectTag 0x30 outer.tag
-  let hashAlg ← (match lookupHash oid with | some h => pure h | none => fail .alg)
+  let hashAlg ← lookupHashM oid
   setHashing true
   let tbs ← readTL
   expectTag 0x30 tbs.tag
   let tbsEnd ← endPosition tbs.len
-  -- version
-  let vtl : Res TL ← (fun r => .ok (peekTL 0 r) r)
-  let hasVersion := match vtl with | .ok t _ => t.tag == 2 && t.len == 1 | _ => false
-  let version ← (if hasVersion then do
-      ignoreErr readTL
-      let b ← readU8
-      pure (versionOf b)
-    else pure 1)
+  let version ← readVersion
   if version > maxVersion then fail .version
   ignoreErr readStructFrame                       -- skip inner AlgorithmIdentifier (result ignored)
   let issuer ← readStruct .rdn O.rdnOk
   let thisUpdate ← readUtcTime O
-  let ntl : Res TL ← (fun r => .ok (peekTL 0 r) r)
-  let hasNext := match ntl with | .ok t _ => t.tag == 23 | _ => false
-  let nextUpdate ← (if hasNext then do let v ← readUtcTime O; pure (some v) else pure none)
+  let nextUpdate ← readNextUpdate O
   emit (.start issuer thisUpdate nextUpdate)
-  -- revokedCertificates
-  let p1 ← getPos
-  let ltl : Res TL ← (fun r => .ok (peekTL 0 r) r)
-  let hasList := (!listGuardedByTbsEnd || decide (p1 < tbsEnd)) && (match ltl with | .ok t _ => t.tag == 0x30 | _ => false)
-  (if hasList then do
-      let l ← readTL
-      expectTag 0x30 l.tag
-      let listEnd ← endPosition l.len
-      entryLoop O listEnd
-    else pure ())
-  -- crlExtensions
-  let p2 ← getPos
-  let etl : Res TL ← (fun r => .ok (peekTL 0 r) r)
-  let hasExts := (!extsGuardedByTbsEnd || decide (p2 < tbsEnd)) && (match etl with | .ok t _ => decide (version > 1) && isCtx0 t.tag | _ => false)
-  let (exts, crlNumber) ← (if hasExts then do
-      ignoreErr readTL
-      let f ← readStructFrame
-      logQuery .exts f.length
-      match O.exts f with
-      | none => fail .decode
-      | some es =>
-        match findExt oidCrlNumber es with
-        | some e => do let n ← onBytes e.value readBigInt; pure (some es, some n)
-        | none => pure (some es, none)
-    else pure (none, none))
+  readEntryList O tbsEnd
+  let (exts, crlNumber) ← readExtensions O tbsEnd version
   emit (.extMeta crlNumber)
-  (match exts with
-   | some es => if criticalGate es then pure () else fail .gate
-   | none => pure ())
+  checkGate exts
   let region ← getHashed
-  let hashFrom ← (fun r => Res.ok r.hashFrom r)
+  let hashFrom ← getHashFrom
   setHashing false
   ignoreErr readStructFrame                       -- skip outer AlgorithmIdentifier
   let sig ← parseBitString
-  pure ({ algOid := oid, hashAlg := hashAlg, issuer := issuer, exts := exts, sig := sig, hashRegion := region, hashFrom := hashFrom })
+  pure { algOid := oid, hashAlg := hashAlg, issuer := issuer, exts := exts, sig := sig, hashRegion := region, hashFrom := hashFrom }
 
 inductive Outcome
   | ok (res : ReadResult)
